@@ -50,6 +50,16 @@ def gen_cases(rng, tier):
             a, m = rng.choice(sets), rng.choice(members)
             op = rng.choice(["with", "without", "<:"])
             asts.append(("%s %s %s" % (a, op, m), X.cmpop("<:", P[m], P[a]) if op == "<:" else X.binop(op, P[a], P[m])))
+    # equal or overlapping denotations in different representations, every operator, both operand orders
+    twins = [("str_ab", "str_rel"), ("ar_12", "ar_set"), ("ar_12", "ar_map"), ("by_12", "by_set"), ("d12", "drel"), ("r_ab", "rj_ba"),
+             ("r_bc", "rj_bc"), ("r_ab", "r_set"), ("str_abc", "str_where"), ("str_ab", "str_seq"), ("dmulti", "d12"), ("u_3", "smix"),
+             ("rj_cab", "r_ab"), ("r_atx", "rj_x_at"), ("ar_hole", "ar_123"), ("str_hole", "str_abc"), ("u_arr_str", "ar_1")]
+    for a, b in twins:
+        if a in P and b in P:
+            for x, y in ((a, b), (b, a)):
+                for op in BIN + (SUBS if tier == "thorough" else [rng.choice(SUBS)]):
+                    asts.append(("twin %s %s %s" % (x, op, y), (X.binop if op in BIN else X.cmpop)(op, P[x], P[y])))
+                asts.append(("twin count(%s | %s)" % (x, y), X.unop("count", X.binop("|", P[x], P[y]))))
     nrand = 300 if tier == "quick" else 3000
     F, Q = fns(), preds(rng)
     for _ in range(nrand):
